@@ -60,6 +60,15 @@ func goMapKeyTrouble(c HCase) bool {
 			return true
 		}
 	}
+	// a complex number is one more number type: #C(1 0) is eql to 1 and 1.0 but a different Go value
+	isComplex := func(o Obj) bool { return o.K == "src" && strings.HasPrefix(o.S, "#C(") }
+	for a, i := range used {
+		for _, j := range used[a+1:] {
+			if x, y := c.Keys[i], c.Keys[j]; (isComplex(x) && (isNum(y) || isComplex(y))) || (isComplex(y) && isNum(x)) {
+				return true
+			}
+		}
+	}
 	for a, i := range used {
 		for _, j := range used[a+1:] {
 			x, y := c.Keys[i], c.Keys[j]
